@@ -415,11 +415,27 @@ func vfInviteDescribe(ctx context.Context, db *WeshOrbitDB, id int, gtype string
 	s := vfNewSession(ctx, gtype, int64(id))
 	g := s.g
 	ev := map[string]any{"ev": "desc", "gtype": gtype, "nmeta": len(s.metas), "nmsg": len(s.msgs)}
-	d, err := FilterGroupForReplication(g)
+	live := g                                    // the object a group context would hold and keep sealing with
+	g = proto.Clone(live).(*protocoltypes.Group) // the full group as it was before the descriptor was derived
+	d, err := FilterGroupForReplication(live)
 	ev["ok"] = err == nil
 	if err != nil {
 		return append(out, ev)
 	}
+	// deriving a descriptor must leave the group it was given as it is ...
+	ev["groupsame"] = proto.Equal(g, live)
+	// ... in particular what the member seals with that object AFTERWARDS is still closed to the descriptor
+	afterHdr := 0
+	for k := 0; k < 3; k++ {
+		if env, err := s.ssV.SealEnvelope(ctx, live, vfPayload(vfRand(int64(id)+int64(k)), k)); err == nil {
+			ssX, err := secretstore.NewInMemSecretStore(nil)
+			vfMust2(err, "secret store")
+			if _, _, err := ssX.OpenEnvelopeHeaders(env, d); err == nil {
+				afterHdr++
+			}
+		}
+	}
+	ev["afterhdr"] = afterHdr
 	db_, err := proto.Marshal(d)
 	vfMust2(err, "marshal descriptor")
 	ev["hassecret"] = len(d.Secret) != 0
